@@ -33,6 +33,9 @@ func pinOverlay(dir string) string {
 			}
 		}
 	}
+	if strings.Contains(dir, "overlay-simrt") {
+		instrumentForSimrt(dir, replace)
+	}
 	ov, _ := json.Marshal(map[string]any{"Replace": replace})
 	out := filepath.Join(dir, "overlay.json")
 	if err := os.WriteFile(out, ov, 0o644); err != nil {
